@@ -25,6 +25,7 @@ package topics
 import (
 	"errors"
 	"fmt"
+	"sync"
 
 	"github.com/mdzio/go-mqtt/message"
 )
@@ -54,7 +55,9 @@ var (
 	// It probably hasn't been registered yet.
 	ErrAuthProviderNotFound = errors.New("auth: Authentication provider not found")
 
-	providers = make(map[string]Provider)
+	// providersMu guards providers.
+	providersMu sync.RWMutex
+	providers   = make(map[string]Provider)
 )
 
 // Provider defines the interface for topic providers.
@@ -73,6 +76,9 @@ func Register(name string, provider Provider) {
 		panic("topics: Register provide is nil")
 	}
 
+	providersMu.Lock()
+	defer providersMu.Unlock()
+
 	if _, dup := providers[name]; dup {
 		panic("topics: Register called twice for provider " + name)
 	}
@@ -82,6 +88,9 @@ func Register(name string, provider Provider) {
 
 // Unregister unregisters a topics provider.
 func Unregister(name string) {
+	providersMu.Lock()
+	defer providersMu.Unlock()
+
 	delete(providers, name)
 }
 
@@ -92,7 +101,9 @@ type Manager struct {
 
 // NewManager creates a new manager with a specific provider.
 func NewManager(providerName string) (*Manager, error) {
+	providersMu.RLock()
 	p, ok := providers[providerName]
+	providersMu.RUnlock()
 	if !ok {
 		return nil, fmt.Errorf("session: unknown provider %q", providerName)
 	}
